@@ -126,6 +126,8 @@ type ctxObj struct {
 	children  []*ctxObj
 	done      *ChanObj
 	cancelled bool
+	deadline  bool // made by WithTimeout/WithDeadline: the environment may let it expire (verifrt.ExpireDeadline)
+	expired   bool
 	id        int
 }
 
@@ -188,7 +190,11 @@ func (ip *Interp) opaqueInvoke(recv Iface, method string, args []Value, cc *ssa.
 			}
 			return Iface{}
 		case "Deadline":
-			return Tuple{ip.zero(cc.Signature().Results().At(0).Type()), ip.tb.BoolConst(false)}
+			has := false
+			for c := o; c != nil; c = c.parent {
+				has = has || c.deadline
+			}
+			return Tuple{ip.zero(cc.Signature().Results().At(0).Type()), ip.tb.BoolConst(has)}
 		}
 	case *Opaque:
 		switch method {
@@ -398,6 +404,29 @@ func init() {
 		return nil
 	}
 	V["Settle"] = func(ip *Interp, fn *ssa.Function, args []Value) Value { return nil }
+	// ExpireDeadline(ctx): the environment lets the nearest pending deadline on ctx's chain expire (a request that
+	// takes longer than its context allows); false if the chain carries no deadline.
+	V["ExpireDeadline"] = func(ip *Interp, fn *ssa.Function, args []Value) Value {
+		iv, _ := args[0].(Iface)
+		c, _ := iv.v.(*ctxObj)
+		for ; c != nil; c = c.parent {
+			if c.deadline && !c.cancelled {
+				ip.schedPoint("deadline")
+				var rel func(x *ctxObj)
+				rel = func(x *ctxObj) {
+					ip.syncRelease(x.done)
+					for _, ch := range x.children {
+						rel(ch)
+					}
+				}
+				rel(c)
+				c.expired = true
+				ip.cancelCtx(c)
+				return ip.tb.BoolConst(true)
+			}
+		}
+		return ip.tb.BoolConst(false)
+	}
 	V["ResetReplay"] = func(ip *Interp, fn *ssa.Function, args []Value) Value { return nil }
 	V["Daemon"] = func(ip *Interp, fn *ssa.Function, args []Value) Value {
 		ip.cur.daemon = true
@@ -751,9 +780,14 @@ func init() {
 		c.key, c.val = args[1], args[2]
 		return mkCtxValue(c)
 	}
+	withDeadline := func(ip *Interp, fn *ssa.Function, args []Value) Value {
+		t := withCancel(ip, fn, args).(Tuple)
+		t[0].(Iface).v.(*ctxObj).deadline = true
+		return t
+	}
 	I["context.WithCancel"] = withCancel
-	I["context.WithTimeout"] = withCancel
-	I["context.WithDeadline"] = withCancel
+	I["context.WithTimeout"] = withDeadline
+	I["context.WithDeadline"] = withDeadline
 	// ----- time -----
 	I["time.Now"] = func(ip *Interp, fn *ssa.Function, args []Value) Value {
 		ip.nowCount++
